@@ -43,7 +43,7 @@ def run_case(case):
     g = np.random.default_rng(case["seed"])
     cfg = gen_cfg(g)
     cfg["ckpt_every"] = 1
-    shown = {k: cfg[k] for k in ("xp", "dtype", "sampler", "n", "opts", "precond", "kernel_steps")}
+    shown = {k: cfg.get(k) for k in ("xp", "dtype", "sampler", "n", "opts", "precond", "kernel_steps", "cut_below")}
     where = f"{shown}"
     base = recorded.record(cfg)
     if base.exc is not None:
